@@ -77,13 +77,17 @@ Other(c) == IF c = "a" THEN "b" ELSE "a"
 \* empty, x, unicode, the other column's name as plain text; and two values with angle brackets whose bracketed
 \* part is NOT a column name: List<str> and <none>  (a cell such as a<b>c, whose bracketed part is a column name, stays
 \* outside: the code's sequential replace substitutes it again -- see the ASSUMEs below)
-Vals(c) == << <<>>, <<"x">>, <<UC>>, <<Other(c)>>, <<"List", "<", "str", ">">>, <<"<", "none", ">">> >>
-NV == 6                              \* code = NV * (index of a's value) + (index of b's value), indices from 0
+\* ... and two values with backslashes (and "$", "&"): C:\temp\new.txt and \d+$&  -- plain characters for the
+\* demanded substitution, whatever a regex replacement template or an unescape would make of them
+BS == "\\"
+Vals(c) == << <<>>, <<"x">>, <<UC>>, <<Other(c)>>, <<"List", "<", "str", ">">>, <<"<", "none", ">">>,
+              <<"C:", BS, "t", "emp", BS, "n", "ew.txt">>, <<BS, "d", "+", "$", "&">> >>
+NV == 8                              \* code = NV * (index of a's value) + (index of b's value), indices from 0
 AllCodes == {NV * i + j : i \in 0..3, j \in 0..3}
 Codes3   == {NV * i + j : i \in 0..3, j \in 1..3}          \* 3-row outlines: b is never empty (budget)
 Codes4   == {NV * i + j : i \in {1, 3}, j \in {1, 3}}        \* values from {x, other column's name}
-AngleCodesQ == {NV * 4 + 1, NV * 1 + 5, NV * 5 + 4, NV * 1 + 1}   \* (List<str>, x) (x, <none>) (<none>, List<str>) (x, x)
-AngleCodesT == {NV * i + j : i \in {1, 4, 5}, j \in {1, 4, 5}}
+AngleCodesQ == {NV * 4 + 1, NV * 1 + 5, NV * 5 + 4, NV * 1 + 1, NV * 6 + 7, NV * 7 + 1, NV * 6 + 1}   \* (List<str>, x) (x, <none>) (<none>, List<str>) (x, x)
+AngleCodesT == {NV * i + j : i \in {1, 4, 5}, j \in {1, 4, 5}} \cup {NV * 6 + 7, NV * 7 + 1, NV * 1 + 6, NV * 7 + 7, NV * 6 + 1}
 CellsFor(ord, code) == LET va == Vals("a")[(code \div NV) + 1]  vb == Vals("b")[(code % NV) + 1]
                        IN IF ord = 1 THEN <<va, vb>> ELSE <<vb, va>>
 ColsFor(ord) == IF ord = 1 THEN <<"a", "b">> ELSE <<"b", "a">>
